@@ -393,7 +393,9 @@ func runC19(t interface{ Fatal(...any) }, spec *hutil.Spec, out *hutil.Out, e *v
 		if out.OverBudget() {
 			return
 		}
-		out.Progress(c.Name())
+		if !out.Begin(c.Name()) {
+			continue
+		}
 		out.Cells++
 		r := &c19run{cell: c}
 		e.Scenario = r.scenario
